@@ -16,9 +16,10 @@ def build(tier="quick", seed=0):
     J = Cx(R("complex_compliance_re"), R("complex_compliance_im"))
     pos = [sp.Gt(x, 0) for x in (mu, g, Rr, rho)]
     pre_l = [sp.Ge(l, 2)]
-    # passive compliance: J = 1/G with Re G >= 0, Im G >= 0, G != 0  =>  Re J >= 0, Im J <= 0, J != 0
-    pre_J = [sp.Ge(J.re, 0), sp.Le(J.im, 0), sp.Gt(J.abs2(), 0)]
+    # ANY complex compliance (the shipped fixed-Q law has Re J < 0): only the singularities of the formula itself are excluded,
+    # J != 0 and 1 + m/(J mu) != 0  <=>  |J mu + m|^2 > 0
     pre_m = [sp.Gt(m, 0)]
+    pre_J = [sp.Gt(J.abs2(), 0), sp.Gt((J * mu + Cx(m)).abs2(), 0)]
 
     spec_m = lambda ll: (2 * ll ** 2 + 4 * ll + 3) * mu / (ll * rho * g * Rr)
     spec_k = lambda ll, mm: Cx(sp.Rational(3) / (2 * (ll - 1))) / (Cx(1) + Cx(mm) / (J * mu))
@@ -80,7 +81,100 @@ def build(tier="quick", seed=0):
     k_comp = spec_k(l, m_comp)
     k_stmt = Cx(sp.Rational(3) / (2 * (l - 1))) / (Cx(1) + Cx((2 * l ** 2 + 4 * l + 3) * mu / (l * rho * g * Rr)) / (J * mu))
     lemma(b, "composition", "k_l(contract of complex_love_general o contract of effective_rigidity_general) == statement formula",
-          sp.And(sp.Eq(k_comp.re, k_stmt.re), sp.Eq(k_comp.im, k_stmt.im)), pos + pre_l + pre_J)
+          sp.And(sp.Eq(k_comp.re, k_stmt.re), sp.Eq(k_comp.im, k_stmt.im)), pos + pre_l + [sp.Gt(J.abs2(), 0), sp.Gt((J * mu + Cx(spec_m(l))).abs2(), 0)])
+    call_site(b)
     b.assume("agreement with the layered radial solver is the Kelvin lemma of C01 instantiated at complex mu = 1/J; not re-proved here")
     b.assume("symbolic degree l is a real >= 2; integer-ness of order_l is not used")
     return b
+
+
+def call_site(b):
+    """collapse_modes (the mode summation that produces the Love numbers used for dissipation): for every degree l the two helpers must be
+    called with THAT degree and the body's own gravity / radius / density / rigidity, and the stored per-degree Love number is the mean of
+    k_l(J_sig) over the frequency signatures of that degree."""
+    from contracts import C10
+    from tpv.symex import Contract
+    bb = Bundle("C12")
+    maxl, N = 3, 2
+    fn, paths, ecc, inc, spin = C10.run_terms(bb, maxl, N, True, False)
+    b.subset_exits += bb.subset_exits
+    if not paths:
+        return
+    uniq, terms = paths[0].value
+    Mf = sp.Function("M_EFF", real=True)
+    Kre, Kim = sp.Function("K_re", real=True), sp.Function("K_im", real=True)
+    eff = Contract("effective_rigidity_general", None, None, params=["shear_modulus", "gravity", "radius", "density", "order_l"],
+                   result=lambda mu_, g_, r_, d_, order_l=sp.Integer(2): Mf(order_l, mu_, g_, r_, d_))
+
+    def love_res(Jc, mu_, m_, order_l=sp.Integer(2)):
+        Jc = Cx.of(Jc)
+        return Cx(Kre(order_l, Jc.re, Jc.im, mu_, m_), Kim(order_l, Jc.re, Jc.im, mu_, m_))
+    love = Contract("complex_love_general", None, None, params=["complex_compliance", "shear_modulus", "eff_rigidity_general", "order_l"], result=love_res)
+    comp = {sig: Cx(C10.Jre(w), C10.Jim(w)) for sig, w in uniq.items()}
+    fc, ex, cpaths = run_fn(b, C10.FM, "collapse_modes", dict(gravity=C10.grav, radius=C10.Rr, density=C10.dens, shear_modulus=C10.mu, tidal_scale=sp.Integer(1),
+                                                             tidal_host_mass=C10.Mh, tidal_susceptibility=C10.chi, complex_compliance_by_frequency=comp,
+                                                             tidal_terms_by_frequency=terms, max_order_l=sp.Integer(maxl), cpl_ctl_method=False),
+                            C10.PRE, globals_env=dict(np=C10.NPX), contracts=dict(effective_rigidity_general=eff, complex_love_general=love), xcheck=False,
+                            opts=dict(check_feasibility=False, havoc_div_in_try=True, definedness=False))
+    if not cpaths:
+        return
+    ret = [p for p in cpaths if p.outcome == "return"]
+    if len(ret) != 1:
+        b.subset_exits.append(f"{fc.key}: {len(ret)} returning paths")
+        return
+    b.replayer(f"{fc.key}::ensures:love_number_uses_degree*", _replay_callsite)
+    love_by_l = ret[0].value[4]
+    for ll in range(2, maxl + 1):
+        sigs = [sig for sig, byl in terms.items() if ll in byl]
+        m_l = Mf(sp.Integer(ll), C10.mu, C10.grav, C10.Rr, C10.dens)
+        spec = Cx(0)
+        for sig in sigs:
+            Jc = comp[sig]
+            spec = spec + Cx(Kre(sp.Integer(ll), Jc.re, Jc.im, C10.mu, m_l), Kim(sp.Integer(ll), Jc.re, Jc.im, C10.mu, m_l))
+        spec = spec / Cx(len(sigs))
+        got = love_by_l.get(ll) if isinstance(love_by_l, dict) else None
+        if got is None:
+            ground(b, f"{fc.key}::ensures:love_number_uses_degree[{ll}]", fc.key, f"love_number_by_orderl has an entry for l = {ll}", False)
+            continue
+        got = Cx.of(got)
+        b.add(Obligation(oid=f"{fc.key}::ensures:love_number_uses_degree[{ll}]", fn=fc.key,
+                         clause=f"ensures love_number_by_orderl[{ll}] == mean over signatures of complex_love_general(J_sig, mu, effective_rigidity_general(mu, g, R, rho, order_l={ll}), order_l={ll})",
+                         goal=sp.And(sp.Eq(got.re, spec.re), sp.Eq(got.im, spec.im)), hyps=C10.PRE, backends=("qqnf",)))
+
+
+_NATIVE_CALLSITE = r'''
+import numpy as np
+from TidalPy.tides.modes.mode_manipulation import find_mode_manipulators
+from TidalPy.rheology.complex_compliance.compliance_models import maxwell
+maxl, N = 3, 2
+calc, collapse, efunc, ifunc = find_mode_manipulators(maxl, N, True)
+n, Om, a, R, M, rho, g, mu, eta, Mh = 4.1e-5, 6.3e-5, 4.2e8, 1.8e6, 8.9e22, 3500.0, 1.8, 5e10, 1e17, 1.9e27
+uniq, terms = calc(Om, n, a, R, efunc(0.1), ifunc(0.3))
+comp = {sig: maxwell(w, 1.0 / mu, eta) for sig, w in uniq.items()}
+out = collapse(g, R, rho, mu, 1.0, Mh, 1.0, comp, terms, max_order_l=maxl, cpl_ctl_method=False)
+love = out[4]
+res = {}
+for l in range(2, maxl + 1):
+    ks = []
+    for sig, byl in terms.items():
+        if l in byl:
+            J = comp[sig]
+            m_l = (2 * l * l + 4 * l + 3) * mu / (l * rho * g * R)
+            ks.append(3 / (2 * (l - 1)) / (1 + m_l / (J * mu)))
+    exp = sum(ks) / len(ks)
+    got = complex(love[l])
+    res[str(l)] = [abs(got - exp) / abs(exp)]
+result = res
+'''
+
+
+def _replay_callsite(ob, res):
+    from tpv import native
+    out = native.run(dict(code=_NATIVE_CALLSITE), timeout=600)
+    rec = dict(replayed=True, native=out, what="love_number_by_orderl[l] from the real calculate_terms -> collapse_modes pipeline vs the mean of the closed form over the unique frequencies (Maxwell, l_max = 3)")
+    try:
+        v = native.unc(out["result"])
+        rec["confirmed"] = any(x[0] > 1e-9 for x in v.values())
+    except Exception:
+        rec["confirmed"] = "exception" in out or "crash" in out
+    return rec
